@@ -120,3 +120,25 @@ Definition results_by_block (n : nat) (tagged : list (nat * pres)) : list bres :
 (* the roots a list of worker results stands for *)
 Definition roots_of (l : list bres) : list tree :=
   flat_map (fun r => match r with BRoot (Some t) => [t] | _ => [] end) l.
+
+(* ---- the byte-level entry points the correspondence check runs (harness ops msplit, mgen) ---- *)
+
+(* a block is the concatenation of its rows, each followed by "\n" (fmt.Sprintln) *)
+Definition block_bytes (b : list str) : str := flat_map (fun r => r ++ [c_lf]) b.
+
+(* split on a whole input: the blocks sent, and whether the scanner ended without an error
+   (on a scanner error the block being collected is not sent) *)
+Definition split_doc (input : str) : list str * bool :=
+  let '(rows, e) := scan_lines input in
+  match e with
+  | ScanEOF => (map block_bytes (split_rows rows), true)
+  | _ => (map block_bytes (removelast (split_rows rows)), false)
+  end.
+
+(* one generate worker on one block through a fresh parser: the block is scanned again *)
+Definition gen_block (block : str) : bres :=
+  let '(rows, e) := scan_lines block in
+  match e with
+  | ScanEOF => worker None (parse_all p0 rows)
+  | _ => match worker None (parse_all p0 rows) with BRoot _ => BErr | x => x end
+  end.
